@@ -741,6 +741,13 @@ def generate_cond_once(rng, feat=None):
                 inner[1]["priority"] = False
                 mbody[mid] = [inner]
                 g.reach[mid] |= reach_of(_cond_callees(inner))
+        withcond = [m for m in pool if mbody[m] and mbody[m][0][0] == "Cond"]
+        plain = [m for m in pool if not mbody[m]]
+        if withcond and plain and rng.random() < 0.6:
+            # a plain forwarding method between a branch and the method that holds a condition() of its own
+            x, y = rng.choice(plain), rng.choice(withcond)
+            mbody[x] = [g.call(y, None)]
+            g.reach[x] |= g.reach[y]
         pool = pool + leaves
 
     own = pick(pool, sum(rng.random() < 0.25 for _ in pool), set())  # called by the enclosing body itself, outside the block
